@@ -223,7 +223,7 @@ static void build(const c06_cfg *c)
 	for (int i = 0; i < c->passes; i++) n += snprintf(sname + n, sizeof(sname) - (size_t)n, "%d", c->main_act[i]);
 	n += snprintf(sname + n, sizeof(sname) - (size_t)n, "-h");
 	for (int i = 0; i < c->nh; i++) n += snprintf(sname + n, sizeof(sname) - (size_t)n, "%d", c->hk[i]);
-	snprintf(sname + n, sizeof(sname) - (size_t)n, "-n%d-t%d-b%d-q%d-a%d-f%d", c->nest, c->threads, c->bound, c->evq_depth, c->prefill_aq, c->fine);
+	snprintf(sname + n, sizeof(sname) - (size_t)n, "-n%d-t%d-b%d-q%d-a%d-f%d-k%d", c->nest, c->threads, c->bound, c->evq_depth, c->prefill_aq, c->fine, c->zkick);
 	S.name = sname; S.init = scn_init; S.at_end = scn_end; S.horizon = 20000; S.max_nesting = c->nest;
 	S.nthreads = 1; S.thread_fn[0] = c6_main;
 	if (c->threads) { for (int i = 0; i < c->nh; i++) { S.thread_fn[S.nthreads] = c6_thread_irq; S.thread_arg[S.nthreads++] = (void *)(intptr_t)i; } }
@@ -233,9 +233,9 @@ static int parse(const char *sn, c06_cfg *c)
 {
 	char m[16], h[16];
 	memset(c, 0, sizeof(*c));
-	if (sscanf(sn, "p%d-s%d-y%d-z%d-m%15[0-9]-h%15[0-9]-n%d-t%d-b%d-q%d-a%d-f%d", &c->passes, &c->start_mask, &c->ny, &c->zdelta, m, h, &c->nest, &c->threads, &c->bound, &c->evq_depth, &c->prefill_aq, &c->fine) != 12) {
+	if (sscanf(sn, "p%d-s%d-y%d-z%d-m%15[0-9]-h%15[0-9]-n%d-t%d-b%d-q%d-a%d-f%d-k%d", &c->passes, &c->start_mask, &c->ny, &c->zdelta, m, h, &c->nest, &c->threads, &c->bound, &c->evq_depth, &c->prefill_aq, &c->fine, &c->zkick) != 13) {
 		/* no handlers: the %[ conversion for h fails */
-		if (sscanf(sn, "p%d-s%d-y%d-z%d-m%15[0-9]-h-n%d-t%d-b%d-q%d-a%d-f%d", &c->passes, &c->start_mask, &c->ny, &c->zdelta, m, &c->nest, &c->threads, &c->bound, &c->evq_depth, &c->prefill_aq, &c->fine) != 11) return 0;
+		if (sscanf(sn, "p%d-s%d-y%d-z%d-m%15[0-9]-h-n%d-t%d-b%d-q%d-a%d-f%d-k%d", &c->passes, &c->start_mask, &c->ny, &c->zdelta, m, &c->nest, &c->threads, &c->bound, &c->evq_depth, &c->prefill_aq, &c->fine, &c->zkick) != 12) return 0;
 		h[0] = 0;
 	}
 	for (int i = 0; m[i]; i++) c->main_act[i] = m[i] - '0';
@@ -292,6 +292,14 @@ static void enumerate(void)
 			if (th) for (int k2 = 0; k2 < HK_KINDS; k2++) { c.nh = 2; c.hk[1] = k2; c.bound = 2; cfgs[ncfg++] = c; }
 		}
 		c.fine = 0;
+		/* the sleeper kicks the yielder before it sleeps: a request for the sleeper itself that arrives during its own dispatch
+		 * is drained by that call, so the fibre is back on the run queue when it asks for its timeout */
+		if (b == 0 || b == 3)
+			for (int k1 = 0; k1 < HK_KINDS; k1++) for (int k2 = -1; k2 < HK_KINDS; k2++) {
+				c.nh = k2 < 0 ? 1 : 2; c.hk[0] = k1; c.hk[1] = k2 < 0 ? 0 : k2; c.nest = 2; c.threads = 0; c.bound = -1; c.evq_depth = 2; c.prefill_aq = 0; c.fine = 0; c.zkick = 1;
+				cfgs[ncfg++] = c;
+			}
+		c.zkick = 0;
 		/* event queue of depth 1 (claims get refused) and a nearly full atomic run queue (requests get refused) */
 		c.nh = 2; c.nest = 2; c.threads = 0; c.bound = -1;
 		c.hk[0] = HK_EV1; c.hk[1] = HK_EV2; c.evq_depth = 1; c.prefill_aq = 0; cfgs[ncfg++] = c;
